@@ -115,6 +115,7 @@ def _work(chunk, acc):
 
             def report(sig, detail, case=case):
                 acc.violation(sig, detail, case)
+            report.count = acc.count
             before = O.content(t) if spec.want_before else None
             src_key = O.concrete_key(t) if spec.on_transition or True else None
             m_before = m
